@@ -111,7 +111,7 @@ def do_copy_action(world, shared, act):
 class C20(HistoryCheck):
     PROP = "C20"
     LEVEL = "fault_enumeration"
-    RUNS = {"quick": 900, "thorough": 20000}
+    RUNS = {"quick": 1500, "thorough": 24000}
     PROFILE = {"kinds": ALL_KINDS + ["any", "any"], "force_kinds": ["any"], "allow_frozen": False,
                "allow_class_dnc": False, "n_attrs": (2, 5)}
     OPGEN = {"p_bad": 0.15, "p_inplace": 0.3,
@@ -263,7 +263,7 @@ class C20(HistoryCheck):
                     act["v"] = good_value(src, "any")
                 acts.append(act)
             plans.append(acts)
-        return {"insts": insts, "values": values, "plans": plans}
+        return {"insts": insts, "values": values, "plans": plans, "cold_singleton": src.chance(0.5)}
 
     def _run_threads(self, spec, tc, first, sched):
         saved = patch_locks(sched)
@@ -274,6 +274,12 @@ class C20(HistoryCheck):
                           for kw in tc["insts"]],
                 "values": [world.build(v, False) for v in tc["values"]],
             }
+            if tc.get("cold_singleton"):
+                # the threads make the first protected copy of the process: the copy-protection singleton does not
+                # exist yet (nothing is in flight here, so discarding the one the set-up built is exactly that state)
+                from spec_classes.utils.mutation import _modules_copyable
+                if "__instance__" in _modules_copyable.__dict__:
+                    del _modules_copyable.__instance__
             for acts in tc["plans"]:
                 sched.add(lambda acts=acts: [do_copy_action(world, shared, a) for a in acts])
             sched.run(first=first)
@@ -320,8 +326,8 @@ class C20(HistoryCheck):
         repair_globals(self.base)
         if not ctx.replay:
             hot = [i + 1 for i, (_, site) in enumerate(probe.trace_sites) if site.startswith("utils/mutation.py")]
-            shape = src.weighted([("bounded", 6), ("pct", 2), ("random", 2)])
-            pol = make_policy(src.rng, shape, probe.step, hot, len(tc["plans"]))
+            shape = src.weighted([("bounded", 2), ("site", 2.5), ("sync", 4), ("pct", 1), ("random", 1)])
+            pol = make_policy(src.rng, shape, probe.step, list(probe.trace_sites) if shape == "site" else hot, len(tc["plans"]))
             if shape == "bounded" and hot:
                 # the property asks for pre-emptions at lines of the copy-protection code
                 pol["preempt_set"] = set(src.choice(hot) for _ in range(pol["d"]))
